@@ -1064,6 +1064,7 @@ func checkC14(c *Ctx, r *Report) {
 		r.Check("C14-stream", fnName(fn), "ARQ payloads are queued for Read with a blocking send", c.pos(fn.Pos()), found,
 			"d.data is sent on dataIn under d.ARQFrame() with a blocking select", "ARQ payloads are no longer handed to the connection with a blocking send")
 	}
+	c14GateRule(c, r, pkg)
 	r.NotCov = append(r.NotCov, "stream equality for all payload sequences", "timing of CRCFAULT retransmissions", "BUFFER/NEWSTATE/PTT interleavings", "unsynchronised TNC state fields (busy, state, connected, closed)")
 }
 
